@@ -11,6 +11,55 @@ def sh(cmd, **kw):
     return subprocess.run(cmd, shell=True, stdout=subprocess.PIPE, stderr=subprocess.STDOUT, text=True, **kw)
 
 
+def binding_cases():
+    """Demonstrates that the trace specifications are bound to what the harness records: a recorded client trace is
+    accepted as it is; after corrupting one recorded field / dropping one kind of event it is rejected."""
+    sys.path.insert(0, os.path.join(ROOT, "tools"))
+    import common as C
+    import mech
+    C.build_harness()
+    wd = C.workdir("selftest-binding")
+    trace = os.path.join(wd, "t.ndjson")
+    subprocess.check_call([C.VH, "client", "--random", "300", "--seed", "7", "--trace", trace,
+                           "--report", os.path.join(wd, "r.json"), "--opt", "faults=0"], stdout=subprocess.DEVNULL)
+    lines = open(trace).read().splitlines()
+
+    def judge(name, ls, verdict):
+        fn = os.path.join(wd, name + ".ndjson")
+        with open(fn, "w") as f:
+            f.write("\n".join(ls) + "\n")
+        cfg = os.path.join(wd, name + ".cfg")
+        C.write_cfg(cfg, "TSpec", {}, (verdict, "Accepted"))
+        viols, _ = C.validate_trace("Trace_Client", cfg, fn, wd, parts=4)
+        m = mech.conform("client", fn, wd)
+        return len(viols), len(m["diverged"])
+
+    rows = []
+    v, d = judge("intact", lines, "Verdict_All")
+    rows.append(("binding: recorded trace, untouched", "all client", "own", "accepted (0 reports, 0 divergences)" if v == 0 and d == 0
+                 else "UNEXPECTED: %d reports, %d divergences" % (v, d), 0))
+    import json as J
+    # (a) one in-flight count off by one
+    ls = list(lines)
+    k = [i for i, l in enumerate(ls) if '"ev":"PollEnd"' in l and '"who":"d"' in l and '"res":"pending"' in l and '"infl":1' in l][5]
+    e = J.loads(ls[k]); e["infl"] += 1; e["timers"] += 1; ls[k] = J.dumps(e, separators=(",", ":"))
+    v, d = judge("count", ls, "Verdict_C11")
+    rows.append(("binding: one logged in-flight count +1", "C11", "own", "rejected (observer reports %d, mechanism divergences %d)" % (v, d)
+                 if v and d else "NOT rejected (%d, %d)" % (v, d), 0))
+    # (b) the hook that logs Cancel messages removed
+    ls = [l for l in lines if not ('"ev":"WireOut"' in l and '"kind":"cancel"' in l)]
+    v, d = judge("nocancel", ls, "Verdict_C03")
+    rows.append(("binding: Cancel messages no longer logged", "C03", "own", "rejected (observer reports %d)" % v if v else "NOT rejected", 0))
+    # (c) one delivered body replaced
+    ls = list(lines)
+    k = [i for i, l in enumerate(ls) if '"ev":"CallResolved"' in l and '"kind":"ok"' in l][3]
+    e = J.loads(ls[k]); e["body"] = "r99.99"; ls[k] = J.dumps(e, separators=(",", ":"))
+    v, d = judge("body", ls, "Verdict_C01")
+    rows.append(("binding: one delivered body replaced", "C01", "own", "rejected (observer reports %d, mechanism divergences %d)" % (v, d)
+                 if v and d else "NOT rejected (%d, %d)" % (v, d), 0))
+    return rows
+
+
 def main(ids):
     if sh("git -C /repo status --short").stdout.strip():
         print("/repo is not clean; refusing to run the self-test")
@@ -25,6 +74,12 @@ def main(ids):
     if ids:
         cases = [c for c in cases if c[0] in ids or c[1] in ids]
     rows, bad = [], 0
+    if not ids or "binding" in ids:
+        for row in binding_cases():
+            rows.append(row)
+            print(row, flush=True)
+            if "NOT" in row[3] or "UNEXPECTED" in row[3]:
+                bad += 1
     for name, prop, patch, origin in cases:
         t0 = time.time()
         a = sh("git -C /repo apply %s" % patch)
